@@ -4,7 +4,8 @@ against the REAL main.js / js/source-map / js/stack-trace of the repository (two
 results come from the driver built from the same working tree), exceptions are thrown at generator-known
 lines of the text in use, and TracePackage.tla validates what the package reports."""
 import base64, json, os, random, shutil, sys, time
-import vlib, static_pipeline as sp, map_pipeline as mp
+import posixpath
+import vlib, gen, static_pipeline as sp, map_pipeline as mp
 
 FILES = {"f1": "/w/app/one.js", "f2": "/w/lib/two.js"}
 CFG = dict(sp.FULL_CFG, chainSourceMap=True)
@@ -100,6 +101,18 @@ def run(seed, tier, extra_cases=None, use_cache=True):
                         loaded[f] = v
             hists.append(h)
     tx = texts()
+    # probe versions: layout templates / random programs, with and without a random inline original map (chained)
+    prng = random.Random(seed * 7919 + 3)
+    probe_versions = []
+    progs = list(mp.LAYOUT_TEMPLATES)
+    for _ in range(4 if tier == "quick" else 60):
+        progs.append(gen.Gen(prng, max_depth=prng.choice([2, 3, 4]), multiline=True).program())
+    for k, code in enumerate(progs):
+        kind = prng.choice(["none", "inline", "inline"])
+        c = mp.make_case(prng, code, kind, True, prng.random() < 0.5, prng.choice(["random", "sparse", "late", "dense"]), file="/w/app/one.js")
+        v = "prb%d" % k
+        tx[v] = c["code"]
+        probe_versions.append(v)
     # native results for every (text, file)
     reqs, keys = [], []
     for v, text in list(tx.items()) + [("nobom:" + v, t[1:]) for v, t in tx.items() if t.startswith("\ufeff")]:
@@ -110,12 +123,55 @@ def run(seed, tier, extra_cases=None, use_cache=True):
             keys.append((text, f))
     resps = vlib.run_requests(reqs, nproc=4)
     table = {}
-    for (text, f), r in zip(keys, resps):
+    maps = {}          # "<file>|<version>" -> tokens of the map embedded in the native result (own decoder)
+    nlines = {}
+    for (text, f), r, rq in zip(keys, resps, reqs):
         k = text + "\u0000" + f
         if r.get("outcome") == "ok":
             table[k] = {"content": r["content"], "metrics": r["metrics"], "literals": r.get("literals")}
+            v = rq["id"].split("|")[0]
+            if (r.get("metrics") or {}).get("status") == "modified":
+                body, mj, _ = vlib.split_trailer(r["content"])
+                mo = json.loads(mj)
+                srcs = mo.get("sources", [])
+                maps["%s|%s" % (f, v)] = [{"gl": t[0], "gc": t[1], "mapped": t[2] is not None,
+                                          "src": posixpath.normpath(os.path.dirname(f) + "/" + srcs[t[2]]) if t[2] is not None else "",
+                                          "sl": t[3] if t[2] is not None else 0,
+                                          "sc": t[4] if t[2] is not None else 0, "name": ""}
+                                         for t in sorted(vlib.decode_mappings(mo["mappings"]), key=lambda t: (t[0], t[1]))]
+                nlines["%s|%s" % (f, v)] = body.count("\n") + 2
         else:
             table[k] = {"error": r.get("error") or "native failure"}
+    for v in probe_versions:
+        CLASSES[v] = "modified" if ("%s|%s" % (FILES["f1"], v)) in maps else "notmodified"
+    # probe histories: arbitrary positions of the file are translated through the public stack-trace API (fake call
+    # sites); the specification looks them up in the map of the version ITS state says is cached for the file
+    def positions(key):
+        toks = maps.get(key, [])
+        nl = nlines.get(key, 30)
+        ps = [[prng.randint(1, nl + 2), prng.randint(1, 120)] for _ in range(14)]
+        for t in prng.sample(toks, min(8, len(toks))):
+            ps += [[t["gl"] + 1, t["gc"] + 1], [t["gl"] + 1, max(1, t["gc"] + prng.choice([0, 2]))]]
+        ps += [[1, 1], [nl + 5, 1]]
+        return ps
+    n_probe_hists = 0
+    if extra_cases is None:
+        pool = probe_versions + ["modA", "modB", "chain", "plain", "err", "bommod"]
+        for i in range(60 if tier == "quick" else 1200):
+            h, last = [], {}
+            for _ in range(prng.choice([2, 3, 4])):
+                f = prng.choice(["f1", "f1", "f2"])
+                v = prng.choice(pool)
+                h.append({"op": "rewrite", "file": f, "version": v})
+                if CLASSES[v] == "modified":
+                    last[f] = v
+                elif CLASSES[v] == "notmodified":
+                    last[f] = None
+                g = prng.choice(["f1", "f2"])
+                key = "%s|%s" % (FILES[g], last.get(g)) if last.get(g) else "%s|%s" % (FILES[g], prng.choice(pool))
+                h.append({"op": "probe", "file": g, "positions": positions(key)})
+            hists.append(h)
+            n_probe_hists += 1
     stale_map_guard(table, tx)
     # on-disk files for getOriginalPathAndLineFromSourceMap
     fsdir = os.path.join(vlib.WORK, "pkgfs")
@@ -139,7 +195,7 @@ def run(seed, tier, extra_cases=None, use_cache=True):
                  ("never-rewritten", "/w/other/unknown.js", 9, "/w/other/unknown.js", 9)]
     jobs = [{"id": "setup", "op": "setup", "repo": vlib.REPO, "table": table, "texts": tx, "config": CFG}]
     for hi, h in enumerate(hists):
-        steps = [{"op": s["op"], "file": FILES[s["file"]], "version": s.get("version", "")} for s in h]
+        steps = [{"op": s["op"], "file": FILES[s["file"]], "version": s.get("version", ""), "positions": s.get("positions", [])} for s in h]
         if hi % 10 == 0:
             for kind, f, ln, ep, el in originals:
                 steps.append({"op": "original", "file": f, "line": ln, "col": 1, "kind": kind, "exp_path": ep, "exp_line": el})
@@ -181,8 +237,9 @@ def run(seed, tier, extra_cases=None, use_cache=True):
         for f in FILES.values():
             pass
         # lines are per file: one init record per history carrying both files' tables keyed "file|version"
+        used = {"%s|%s" % (FILES[s["file"]], s["version"]) for s in h if s["op"] == "rewrite"} if any(s["op"] == "probe" for s in h) else set()
         recs.append({"ev": "init", "classes": dict(CLASSES, none="none"),
-                     "lines": {}, "rid": ""})
+                     "lines": {}, "rid": "", "maps": {k: maps[k] for k in used if k in maps}})
         for e in r["events"]:
             n += 1
             rid = "p%d" % n
@@ -190,7 +247,10 @@ def run(seed, tier, extra_cases=None, use_cache=True):
                    "status": str(e.get("status", "")), "same_text": bool(e.get("same_text")), "has_trailer": bool(e.get("has_trailer")),
                    "fresh_same": bool(e.get("fresh_same")), "fresh_diff": str(e.get("fresh_diff", "")),
                    "has_hook": bool(e.get("has_hook")), "frames": [], "res_path": "", "res_line": 0, "exp_path": "", "exp_line": 0,
-                   "kind": "", "line": 0}
+                   "kind": "", "line": 0, "probes": []}
+            if e["op"] == "probe":
+                rec["probes"] = [{"l": int(q[0]), "c": int(q[1]), "path": str(q[2]), "line": int(q[3] or 0), "col": int(q[4] or 0)}
+                                 for q in e.get("results", [])]
             if e["op"] == "throw":
                 rec["frames"] = [{"mode": fr.get("mode", ""), "path": str(fr.get("path", "")), "line": int(fr.get("line", 0) or 0)}
                                  for fr in e.get("frames", [])]
